@@ -135,9 +135,15 @@ def check_connectives(ctx, target: str, rule: str) -> None:
         ctx.require_anchor(m is not None, f"{target}: Transpiler.{name} exists")
         kind = None
         # delegation to a shared helper: ``return self._transform_and_or_or(node)``
-        body = [s_ for s_ in m.node.body if not (isinstance(s_, ast.Expr) and isinstance(s_.value, ast.Constant))]
-        if len(body) == 1 and isinstance(body[0], ast.Return) and isinstance(body[0].value, ast.Call) and (dotted_of(body[0].value.func) or "").startswith("self."):
-            helper = ci.methods.get((dotted_of(body[0].value.func) or "").split(".")[-1])
+        body = [s_ for s_ in m.node.body if not (isinstance(s_, ast.Expr) and isinstance(s_.value, ast.Constant)) and not isinstance(s_, (ast.Assert, ast.Pass))]
+        deleg = None
+        if len(body) == 1 and isinstance(body[0], ast.Return) and isinstance(body[0].value, ast.Call):
+            deleg = body[0].value
+        elif len(body) == 2 and isinstance(body[0], ast.Assign) and len(body[0].targets) == 1 and isinstance(body[0].targets[0], ast.Name) and isinstance(body[0].value, ast.Call) \
+                and isinstance(body[1], ast.Return) and isinstance(body[1].value, ast.Name) and body[1].value.id == body[0].targets[0].id:
+            deleg = body[0].value  # `x = self._helper(node); return x`
+        if deleg is not None and (dotted_of(deleg.func) or "").startswith("self."):
+            helper = ci.methods.get((dotted_of(deleg.func) or "").split(".")[-1])
             if helper is not None:
                 kind = {"transform_and": "And", "transform_or": "Or", "transform_not": "Not", "transform_implication": "Implication"}[name]
                 m = helper
